@@ -232,7 +232,8 @@ def jobs_for(K, mode, src, rng=None, variant=rc.PLAIN):
         base = fn.split(":")[0]
         base = {"charpath": kw.get("src"), "distance_agree": None}.get(base, base)
         # `dtype` = what the job's own routine is handed (failure tags), `draw` = the input's draw
-        eff = arg_dtype(base, variant[0], mode) if base else variant[0]
+        eff = arg_dtype(base or "reachdist", variant[0], mode) if (base or mode == "bin") else \
+            arg_dtype("distance_wei", variant[0], mode)
         return dict(fn=fn, kind=kind, mode=mode, K=K, src_kind=src, dtype=eff, draw=variant[0],
                     layout=variant[1], **kw)
 
